@@ -70,8 +70,8 @@ def base_of(spec, keep_names=()):
     return s
 
 
-def solve_debug(spec, seed):
-    h = B.build(spec, seed, solver_kwargs={"debug": True})
+def solve_debug(spec, seed, extra=None):
+    h = B.build(spec, seed, solver_kwargs=dict({"debug": True}, **(extra or {})))
     try:
         with env.collect_prints() as printed:
             sol = h.solver.solve()
@@ -87,7 +87,14 @@ def solve_debug(spec, seed):
     return h, sol, listed, header
 
 
-def prop(ctx, case):
+def prop_optimize(ctx, case):
+    """the same diagnosis through the built-in optimiser (debug=True, optimizer='optimize', an objective): run as the LAST
+    stratum of the shard because z3 4.12.6 occasionally aborts the process on tracked assertions inside z3.Optimize"""
+    spec = dict(case["spec"], objectives=[{"type": "MinimizeMakespan", "id": "o1"}])
+    prop(ctx, {"spec": spec, "seed": case["seed"]}, extra={"optimizer": "optimize"})
+
+
+def prop(ctx, case, extra=None):
     spec, seed = case["spec"], case["seed"]
 
     def viol(rule, observed, extra=None):
@@ -104,7 +111,7 @@ def prop(ctx, case):
         ctx.event("base_not_feasible")
         return
     try:
-        h0, sol0, exc0 = probe.solve_public(spec, seed)
+        h0, sol0, exc0 = probe.solve_public(spec, seed, solver_kwargs=extra)
     except B.BuildRejected as exc:
         ctx.event(f"build_rejected:{exc.stage}:{type(exc.exc).__name__}")
         return
@@ -112,7 +119,7 @@ def prop(ctx, case):
         ctx.event("plain_solve_raised")
         return
     try:
-        h, sol, listed, header = solve_debug(spec, seed + 1)
+        h, sol, listed, header = solve_debug(spec, seed + 1, extra)
     except Exception as exc:
         viol("debug_solve_raised", repr(exc))
         return
@@ -187,6 +194,9 @@ def prop(ctx, case):
 def run_shard(ctx):
     n = {"quick": 110, "thorough": 1000}[ctx.tier]
     run_hypothesis(ctx, cases(), prop, max_examples=n)
+    # prop_optimize (debug=True + optimizer="optimize") is deliberately NOT run: on z3 4.12.6 the process aborts in about
+    # half of the shards (SIGSEGV / "ASSERTION VIOLATION" while extracting the core of a z3.Optimize object) and the cores
+    # that do come back are not cores (e.g. only an irrelevant TaskStartAt listed); see DESIGN.md section 5.
 
 
 def replay(record):
